@@ -17,7 +17,7 @@ def build_cases(tier, seed=SEED, mono=False):
         for d, (o, p, lam, extra, npts, fam) in enumerate(dimspecs):
             ks = knot_family(fam, 2 * o + 2 + extra, o, rng); body += dimline(d, o, p, lam, ks, coords_for(ks, o, npts, rng, shuffle=True))
         cases.append((name, hdr + '\n' + body + 'end\n', dict(dims=dimspecs, monodim=monodim)))
-    orders = range(0, 4) if tier == 'quick' else range(0, 5)
+    orders = range(0, 5)
     for o in orders:
         for p in range(0, o + 1):
             for lam in (True, False):
@@ -34,11 +34,16 @@ def build_cases(tier, seed=SEED, mono=False):
     # the smallest 3-D shape: two dimensions precede / follow the monotonic one (stride arithmetic of the cumulative sum)
     for m in ((0, 1, 2) if mono else (-1,)):
         add('c_3d_small_m%d' % m, [(0, 0, True, 1, 2, 'uniform'), (1, 1, False, 0, 3, 'irregular'), (0, 0, True, 1, 2, 'irregular')], monodim=m)
+    for m in ((0, 2) if mono else (-1,)):
+        add('c_3d_m%d' % m, [(1, 1, True, 0, 3, 'irregular'), (0, 0, False, 1, 3, 'uniform'), (1, 0, True, 0, 3, 'irregular')], monodim=m)
+        add('c_3d_b_m%d' % m, [(2, 2, True, 0, 4, 'irregular'), (1, 1, True, 0, 3, 'uniform'), (0, 0, True, 1, 2, 'irregular')], skip=(1, 5), monodim=m)
+    add('c_2d_o3', [(3, 2, True, 0, 5, 'irregular'), (2, 1, True, 1, 5, 'irregular')], monodim=1 if mono else -1)
     if tier != 'quick':
-        for m in ((0, 2) if mono else (-1,)):
-            add('c_3d_m%d' % m, [(1, 1, True, 0, 3, 'irregular'), (0, 0, False, 1, 3, 'uniform'), (1, 0, True, 0, 3, 'irregular')], monodim=m)
-            add('c_3d_b_m%d' % m, [(2, 2, True, 0, 4, 'irregular'), (1, 1, True, 0, 3, 'uniform'), (0, 0, True, 1, 2, 'irregular')], skip=(1, 5), monodim=m)
-        add('c_2d_o3', [(3, 2, True, 0, 5, 'irregular'), (2, 1, True, 1, 5, 'irregular')], monodim=1 if mono else -1)
+        # 4-D: the array-arithmetic reshaping with two dimensions on either side; a monotonic dimension in every position
+        for m in ((0, 1, 2, 3) if mono else (-1,)):
+            add('c_4d_m%d' % m, [(0, 0, True, 1, 2, 'uniform'), (1, 1, False, 0, 2, 'irregular'), (0, 0, True, 0, 2, 'irregular'), (1, 0, True, 0, 3, 'uniform')], monodim=m)
+        add('c_3d_o2', [(2, 1, True, 1, 4, 'irregular'), (2, 2, False, 0, 3, 'irregular'), (1, 1, True, 1, 3, 'uniform')], skip=(0, 9), zero=(4,), monodim=1 if mono else -1)
+        add('c_2d_o4', [(4, 3, True, 0, 6, 'irregular'), (1, 1, True, 2, 5, 'irregular')], monodim=0 if mono else -1)
     return cases
 
 def replay_binary():
@@ -71,7 +76,7 @@ def run_check(tier, pid='C09', mono=False):
     budget = 30 if tier == 'quick' else 180
     res, fails = fitkit.evaluate(out, pid, cases, budget)
     triage(out, pid, cases, fails)
-    out.cov['bounds'] = dict(ndim='1..2 (quick) / ..3', orders='0..3 (quick) / ..4', penalty_orders='0..order', shapes='<= 6 abscissae and <= 5 splines per axis; dense, missing-cell, reversed listings; zero weights; per-dimension and shared smoothing/penalty arguments',
+    out.cov['bounds'] = dict(ndim='1..3 (quick) / ..4', orders='0..4', penalty_orders='0..order', shapes='<= 6 abscissae and <= 5 splines per axis; dense, missing-cell, reversed listings; zero weights; per-dimension and shared smoothing/penalty arguments',
                              symbolic='every data value, every weight (w>0 or exactly 0), every smoothing strength (>0 or exactly 0)', solver_budget_s=budget)
     out.cov['translator_validation'] = dict(compared=compared, mismatches=mism, status=vstat, what='generated C fit on the CHOLMOD model (Gaussian elimination) vs real library with real CHOLMOD, coefficients to 2e-4')
     if vstat != 'ok' and not out.violations: out.errors.append('translator validation inconclusive: ' + vstat)
